@@ -23,14 +23,24 @@ def seq_configs(run, thorough_extra=False):
     return cfgs
 
 
-def run_seq_streams(run, a, pid, fail_pids, modes=('walk', 'boundary', 'pairs'), cfgs=None, collect_digests=None):
+def run_seq_streams(run, a, pid, fail_pids, modes=('walk', 'boundary', 'pairs'), cfgs=None, collect_digests=None, trace_dir=None):
     """Run hseq streams through `judge seq`. Oracle failures of properties in fail_pids become failures
     of this run; model diffs / bad traces are breakage."""
     cfgs = cfgs or seq_configs(run)
     total_ops = total_scripts = 0
     jobs = []
-    for profile, parity in cfgs:
-        binpath = os.path.join(os.path.dirname(vlib.cargo_build(profile)), 'hseq')
+    traces = {}
+    for cfg in cfgs:
+        profile, parity = cfg[0], cfg[1]
+        feat = cfg[2] if len(cfg) > 2 else None
+        if feat == 'nodef':
+            binpath = os.path.join(os.path.dirname(vlib.cargo_build(profile, no_default=True, bins=['hseq'])), 'hseq')
+        elif feat:
+            binpath = os.path.join(os.path.dirname(vlib.cargo_build(profile, features=[feat], bins=['hseq'])), 'hseq')
+        else:
+            binpath = os.path.join(os.path.dirname(vlib.cargo_build(profile)), 'hseq')
+        if feat:
+            profile = profile + '+' + feat
         for mode in (['replay'] if a.replay else list(modes)):
             if mode == 'replay':
                 cmd = [binpath, 'seq', 'replay', a.replay]
@@ -41,7 +51,14 @@ def run_seq_streams(run, a, pid, fail_pids, modes=('walk', 'boundary', 'pairs'),
             jobs.append((profile, parity, mode, cmd))
     from concurrent.futures import ThreadPoolExecutor
     with ThreadPoolExecutor(max_workers=min(12, len(jobs) or 1)) as ex:
-        results = list(ex.map(lambda j: vlib.pipe(j[3], ['seq'], env={'VERIF_PARITY': j[1]}), jobs))
+        def one(j):
+            tr = None
+            if trace_dir:
+                os.makedirs(trace_dir, exist_ok=True)
+                tr = os.path.join(trace_dir, f'{j[0]}-{j[1]}-{j[2]}.trace')
+                traces[(j[0], j[1], j[2])] = tr
+            return vlib.pipe(j[3], ['seq'], env={'VERIF_PARITY': j[1]}, save_trace=tr)
+        results = list(ex.map(one, jobs))
     for (profile, parity, mode, cmd), (out, hrc, jrc, herr) in zip(jobs, results):
         if True:
             died = hrc != 0
@@ -84,6 +101,8 @@ def run_seq_streams(run, a, pid, fail_pids, modes=('walk', 'boundary', 'pairs'),
                        "(every starting representation x every single op x boundary arguments 0,1,len-1,len,len+1,cap,cap+1,2^63±1,2^64-1-k "
                        "+ random follow-ups), every script ending with all handles dropped in random order; debug and release profiles "
                        "(thorough: even/odd/alternating address parity); distinct_nontrivial = scripts executed")
+    if trace_dir:
+        return traces
     return total_ops
 
 
